@@ -13,8 +13,8 @@ META = dict(
     property="C09",
     level="exploration",
     technique="model-based history testing (Hypothesis op lists + complete short histories) of task.Clock against an exact reference timer model with run-within-advance semantics",
-    level_text="Random histories of up to 200 operations and every history of length <= 4 (quick) / <= 5 (thorough) over a 31-letter alphabet with at most 3 top-level calls are executed on a real task.Clock; every run of a call and every getDelayedCalls()/getTime()/seconds() observation is compared with the model. Exploration, not proof: long histories are sampled.",
-    level_note="Times are multiples of 1/16 s (dyadic, exact in floats). callLater/reset arguments and advances are >= 0, delay() may be negative. Calls do not raise and do not call advance() re-entrantly (both outside the statement). The plain 'nondecreasing sequence of scheduled times' is asserted only on histories without a negative delay(); with one, 'no strictly earlier pending call when a call starts' is asserted instead (a negative delay legitimately schedules into the past). The order of getDelayedCalls() is not asserted.",
+    level_text="Random histories of up to 200 operations and every history of length <= 4 (quick) / <= 5 (thorough) over a 34-letter alphabet with at most 3 top-level calls are executed on a real task.Clock; every run of a call and every getDelayedCalls()/getTime()/seconds() observation is compared with the model. Exploration, not proof: long histories are sampled.",
+    level_note="Times are multiples of 1/16 s (dyadic, exact in floats). callLater/reset arguments and advances are >= 0, delay() may be negative. Calls do not raise (outside the statement). A running call may itself call advance() (re-entrancy): whenever any advance() returns, nothing due may be left pending. The plain 'nondecreasing sequence of scheduled times' is asserted only on histories without a negative delay(); with one, 'no strictly earlier pending call when a call starts' is asserted instead (a negative delay legitimately schedules into the past). The order of getDelayedCalls() is not asserted.",
     design_ref="§5 C09",
     rule="case = list of operations; ops inside calls are part of the call's description. Non-trivial = the history reschedules (reset/delay) at least one pending call and contains an advance that runs >= 2 calls; distinct by the full operation list.",
 )
@@ -23,7 +23,7 @@ TICK = 0.0625  # 1/16 s
 
 
 class _MC:
-    __slots__ = ("cid", "T", "state", "nested", "moved", "runs", "dc", "born_in")
+    __slots__ = ("cid", "T", "state", "nested", "moved", "runs", "dc", "born_in", "after_nadv")
 
 
 class _Run:
@@ -37,8 +37,11 @@ class _Run:
         self.by_id = {}
         self.adv_no = 0
         self.last = None
-        self.in_adv = False
+        self.in_adv = 0              # depth of advance() calls in progress
         self.ran_in_adv = 0
+        self.cb_advanced = False     # the running callback has already moved the clock itself
+        self.f_nested_adv = False
+        self.f_nadv_due = False
         self.last_run_T = None
         self.neg_delay = False
         self.f_multi = False
@@ -76,6 +79,7 @@ class _Run:
         c.moved = False
         c.runs = 0
         c.born_in = self.adv_no if self.in_adv else None
+        c.after_nadv = self.cb_advanced and c.T <= self.now
         self.calls.append(c)
         self.last = c
         c.dc = self.K.callLater(d * TICK, self.fire, c.cid)
@@ -120,6 +124,8 @@ class _Run:
         c.T = self.now + d
         c.moved = True
         self.f_moved = True
+        if self.cb_advanced and c.T <= self.now:
+            c.after_nadv = True
         self.after_move(c, "reset")
 
     def do_delay(self, ref, d):
@@ -171,18 +177,23 @@ class _Run:
             self.bad("clock-seconds", f"{where}: seconds() {self.K.seconds()} want {self.now * TICK}")
 
     def do_adv(self, d):
+        # may be re-entrant: a running call may itself advance the clock
         if self.in_adv:
-            raise AssertionError("nested advance is outside the generated domain")
+            self.f_nested_adv = True
+            self.cb_advanced = True
         self.adv_no += 1
         self.now += d
+        outer_ran = self.ran_in_adv
         self.ran_in_adv = 0
-        self.in_adv = True
+        self.in_adv += 1
         try:
             self.K.advance(d * TICK)
         finally:
-            self.in_adv = False
+            self.in_adv -= 1
         if self.ran_in_adv >= 2:
             self.f_multi = True
+        self.ran_in_adv += outer_ran
+        # when any advance() returns nothing that is due may be left pending
         for c in self.calls:
             if c.state == "pending" and c.T <= self.now:
                 self.bad("due-call-not-run",
@@ -218,11 +229,18 @@ class _Run:
         self.ran_in_adv += 1
         if c.born_in == self.adv_no:
             self.f_same_adv = True
+        if c.after_nadv:
+            self.f_nadv_due = True
         if c.dc.active():
             self.bad("active-while-running", f"call {cid}")
-        for a in c.nested:
-            self.f_nested = True
-            self.step(a)
+        outer_flag = self.cb_advanced
+        self.cb_advanced = False
+        try:
+            for a in c.nested:
+                self.f_nested = True
+                self.step(a)
+        finally:
+            self.cb_advanced = outer_flag
 
     def step(self, op):
         k = op[0]
@@ -276,7 +294,9 @@ def run_case(ctx, case):
                         (r.f_tie, "history: same-time never-rescheduled pair at run time"),
                         (r.neg_delay, "history: negative delay"),
                         (r.f_past, "history: negative delay into the past"),
-                        (r.f_dead_op, "history: op on finished call")):
+                        (r.f_dead_op, "history: op on finished call"),
+                        (r.f_nested_adv, "history: advance() from inside a running call"),
+                        (r.f_nadv_due, "history: call made due after a nested advance ran before the outer advance returned")):
         if flag:
             ctx.count(label)
     if r.f_multi and r.f_moved:
@@ -330,15 +350,17 @@ def _dec_nested(D, depth, nonneg):
     n = (0, 1, 2, 0, 1, 2, 0, 1)[D.take(8)]
     out = []
     for _ in range(n):
-        k = D.take(8)
-        if k == 0:
+        k = D.take(16)
+        if k < 2:
             out.append(["cancel", _dec_ref(D)])
-        elif k in (1, 2):
-            out.append(["reset", _dec_ref(D), _DT[D.take(16)]])
-        elif k in (3, 4):
+        elif k < 5:
+            out.append(["reset", _dec_ref(D), (0, 0, 1, 16)[D.take(4)] if D.take(2) else _DT[D.take(16)]])
+        elif k < 8:
             out.append(["delay", _dec_ref(D), _dec_delay(D, nonneg)])
-        elif k == 5:
+        elif k == 8:
             out.append(["gdc"])
+        elif k < 11:
+            out.append(["adv", (1, 8, 16, 0)[D.take(4)]])
         else:
             d = _DT[D.take(16)]
             if depth > 0:
@@ -384,13 +406,17 @@ _NESTS = [
     [["reset", ["a", 0], 0]],
     [["delay", ["a", 1], -2 * U]],
     [["reset", ["a", 1], U]],
+    [["adv", U], ["call", 0, []]],
+]
+_NESTS0 = [
+    [["adv", U], ["reset", ["a", 1], 0]],
 ]
 
 
 def _alphabet():
     A = []
     for d in (0, U):
-        for n in _NESTS:
+        for n in _NESTS + (_NESTS0 if d == 0 else []):
             A.append((["call", d, n], "new"))
     A.append((["call", 2 * U, []], "new"))
     for i in range(3):
@@ -468,7 +494,7 @@ def run(ctx):
         ctx.shards(_hyp_shard, list(range(16)))
         return
     anyd, pos = _strategy()
-    hyp_run(ctx, anyd, run_case, 2000, label="any")
+    hyp_run(ctx, anyd, run_case, 1600, label="any")
     if ctx.has_violation():
         return
-    hyp_run(ctx, pos, run_case, 1000, label="nonneg")
+    hyp_run(ctx, pos, run_case, 800, label="nonneg")
